@@ -13,6 +13,7 @@ THEOREMS = [
     'OpenHTF.AtomicFile.c17_atomic_output_to_file',
     'OpenHTF.AtomicFile.c17_atomic_atomic_write',
     'OpenHTF.AtomicFile.c17_success_exact',
+    'OpenHTF.AtomicFile.c17_interleaved_calls_are_independent',
     'OpenHTF.AtomicFile.rename_before_close_is_not_atomic',
     'OpenHTF.AtomicFile.c17_atomic_with_any_flushes',
 ]
@@ -171,7 +172,85 @@ def _record():
   return _RECORD[0]
 
 
+def run_pair(case):
+  """one OutputToFile object called for two records (two destinations) by two threads; the chunk emissions are
+  released in the order of case['sched'] (thread 1 opens its file after thread 0 reached its first chunk)"""
+  import copy
+  import threading
+  from openhtf.output import callbacks
+  scratch = tempfile.mkdtemp(prefix='verif-c17-')
+  try:
+    rec0 = _record()
+    rec1 = copy.copy(rec0)
+    rec1.dut_id = 'dut8'
+    chunks = {'dut7': [bytes.fromhex(c) for c in case['chunks0']], 'dut8': [bytes.fromhex(c) for c in case['chunks1']]}
+    tid = {'dut7': 0, 'dut8': 1}
+    sched = list(case['sched'])
+    cv = threading.Condition()
+    st = {'ptr': 0, 'entered0': False, 'done': [False, False]}
+
+    def my_turn(me):
+      rest = sched[st['ptr']:]
+      return (not rest) or rest[0] == me or st['done'][1 - me] or (me not in rest)
+
+    class Out(callbacks.OutputToFile):
+      def serialize_test_record(self_, test_rec):
+        me = tid[test_rec.dut_id]
+
+        def gen():
+          for c in chunks[test_rec.dut_id]:
+            with cv:
+              if me == 0:
+                st['entered0'] = True
+                cv.notify_all()
+              cv.wait_for(lambda: my_turn(me), timeout=5)
+            yield c
+            with cv:
+              if st['ptr'] < len(sched) and sched[st['ptr']] == me:
+                st['ptr'] += 1
+              cv.notify_all()
+          with cv:
+            st['entered0'] = True
+            cv.notify_all()
+        return gen()
+
+    cb = Out(os.path.join(scratch, '{dut_id}.out'))
+    errs = []
+
+    def call(rec, me):
+      try:
+        if me == 1:
+          with cv:
+            cv.wait_for(lambda: st['entered0'], timeout=5)
+        cb(rec)
+      except BaseException as e:  # pylint: disable=broad-except
+        errs.append('%d:%s' % (me, type(e).__name__))
+      finally:
+        with cv:
+          st['done'][me] = True
+          cv.notify_all()
+    ths = [threading.Thread(target=call, args=(r, i), daemon=True) for i, r in enumerate((rec0, rec1))]
+    for t in ths:
+      t.start()
+    for t in ths:
+      t.join(20)
+    out = []
+    for i, name in enumerate(('dut7.out', 'dut8.out')):
+      path = os.path.join(scratch, name)
+      if os.path.exists(path):
+        with open(path, 'rb') as f:
+          d = f.read()
+        out.append('D%d:%s' % (i, d.hex() or '-'))
+      else:
+        out.append('D%d:~' % i)
+    return {'pair': out, 'errs': errs, 'hung': [i for i, t in enumerate(ths) if t.is_alive()]}
+  finally:
+    shutil.rmtree(scratch, ignore_errors=True)
+
+
 def run_real(case):
+  if case['prog'] == 'P':
+    return run_pair(case)
   from openhtf.output import callbacks
   from openhtf.output.callbacks import json_factory
   from openhtf.util import atomic_write as aw
@@ -264,6 +343,11 @@ def run_json(case):
 
 
 def encode(case, obs):
+  if case['prog'] == 'P':
+    return 'C17 P %d %s %d %s %d %s # %s' % (
+        len(case['chunks0']), ' '.join(c or '-' for c in case['chunks0']), len(case['chunks1']),
+        ' '.join(c or '-' for c in case['chunks1']), len(case['sched']), ' '.join(map(str, case['sched'])),
+        ' '.join(obs['pair'] + ['ERR:' + e for e in obs['errs']] + ['HUNG:%d' % h for h in obs['hung']]))
   f = case['fault']
   ftok = {'none': 'none', 'close': 'close'}.get(f[0]) or ('%s:%d' % (f[0], f[1]))
   chunks = case['chunks']
@@ -275,6 +359,8 @@ def encode(case, obs):
 
 
 def classify(case, obs):
+  if case['prog'] == 'P':
+    return 'P/two-calls-at-once'
   return '%s/%s/%s' % (case['prog'], case['fault'][0], 'crash' if case.get('crash') is not None else 'run')
 
 
@@ -303,6 +389,14 @@ def gen_cases(rng, tier):
           cases.append({'prog': prog, 'chunks': chunks, 'old': old, 'fault': ['none', 0], 'crash': j, 'filesync': j % 2 == 1})
         for j in range(0, n + 4):
           cases.append({'prog': prog, 'chunks': chunks, 'old': old, 'fault': ['ser', max(0, n - 1)], 'crash': j})
+  # one callback object, two records at once
+  for c0, c1 in ((['61', '62', '63'], ['78', '79']), (['6161'], ['7a7a', '7a']), (['41', '42'], ['43', '44', '45', '46'])):
+    for sched in itertools.product((0, 1), repeat=3):
+      cases.append({'prog': 'P', 'chunks0': c0, 'chunks1': c1, 'sched': list(sched)})
+  for i in range(20 if tier == 'quick' else 200):
+    r = rng.derive(('P', i))
+    mk = lambda: [''.join('%02x' % r.randrange(97, 123) for _ in range(r.randint(1, 4))) for _ in range(r.randint(1, 4))]
+    cases.append({'prog': 'P', 'chunks0': mk(), 'chunks1': mk(), 'sched': [r.randint(0, 1) for _ in range(r.randint(0, 8))]})
   for i in range(200 if tier == 'quick' else 3000):
     r = rng.derive(i)
     prog = r.choice(['F', 'A'])
